@@ -257,13 +257,25 @@ fn fresh_process_inner(fs: &Fs, entry: &str, settings: &Settings, v: &Variant) -
             if !v.earlier.is_empty() {
                 let finals = shared.borrow().fs.clone();
                 let mut touched: std::collections::BTreeSet<String> = Default::default();
+                let mut absent: std::collections::BTreeSet<String> = Default::default();
                 for round in &v.earlier {
                     for (f, c) in round {
+                        if c == crate::model::ABSENT_IN_EARLIER_REVISION {
+                            // the file does not exist yet; nothing is said to the session, neither now nor when it appears
+                            shared.borrow_mut().fs.remove(f);
+                            absent.insert(f.clone());
+                            continue;
+                        }
                         shared.borrow_mut().fs.insert(f.clone(), c.clone());
                         touched.insert(f.clone());
                         let _ = update(&shared, f, c);
                     }
                     let _ = build_triple(&shared, &entry, &settings, false);
+                }
+                for f in &absent {
+                    if let (false, Some(c)) = (touched.contains(f), finals.get(f)) {
+                        shared.borrow_mut().fs.insert(f.clone(), c.clone());
+                    }
                 }
                 for f in &touched {
                     match finals.get(f) {
